@@ -9,7 +9,7 @@ cd "$ROOT"
 export CARGO_NET_OFFLINE=true
 export CARGO_TERM_COLOR=never
 mkdir -p work evidence replays
-TWO_PROFILE=" C02 C03 C11 "
+TWO_PROFILE=" C01 C02 C03 C04 C05 C06 C07 C08 C09 C10 C11 C12 C13 C14 C15 C16 C17 C18 C19 C20 "
 RELCHECK_BIN="$ROOT/target/relcheck/mqv"
 RELEASE_BIN="$ROOT/target/release/mqv"
 
